@@ -23,6 +23,7 @@ RULE = (
     "{conforming input: outputs torch.equal to the undecorated twin's; non-conforming input: the dltype error class under eager, script "
     "and compile}. non-trivial = every (module, mode, input kind) triple"
 )
+RULE += " Also: a module whose hints are forward references to aliases defined below the class; a module with a tensor-valued default."
 TRUSTED_EXTRA = ["TorchScript, the tracer and dynamo are not modelled: capture modes are observed against an undecorated twin, not proved"]
 
 SRC = r'''
